@@ -94,6 +94,9 @@ class Builder:
             # integer types to infinity: hand it a serializer that is unbounded already
             kw['max_occurs'] = 'unbounded'
         k = ty['k']
+        if ty.get('pa'):
+            # per-protocol attributes: {protocol name: {attribute: value}} -> pa={ProtocolClass: {...}}
+            kw['pa'] = {proto_class(pn): dict(a) for pn, a in ty['pa'].items()}
         if k == 'int':
             cls = {'unbounded': P.Integer, 'i8': P.Integer8, 'i16': P.Integer16, 'i32': P.Integer32,
                    'i64': P.Integer64, 'u8': P.UnsignedInteger8, 'u16': P.UnsignedInteger16,
@@ -1386,7 +1389,7 @@ GOOD_FACTS = {'occCount': 'perItem', 'mpNameAnyKey': True, 'nullComplexIsNone': 
               'intFromFloat': True, 'nativeKindFault': True, 'binKindFault': True, 'rawBytesKindFault': True, 'nestedArrayOk': True, 'parseErrorsFault': True, 'binTextValidated': True, 'missingBodyFault': True,
               'guardPathLocal': True, 'fileFormValidated': True, 'mpBoolPassThrough': [], 'tableUtf8Fault': True,
               'bytesJoinBeforeEncode': True, 'retagSubclassChecked': True,
-              'notWrappedStrKeys': True, 'notWrappedBytesKeys': True, 'nonNumberForNumber': [], 'noFreqKeepsValidation': True, 'valuesNullTestIsNone': True}
+              'notWrappedStrKeys': True, 'notWrappedBytesKeys': True, 'nonNumberForNumber': [], 'noFreqKeepsValidation': True, 'valuesNullTestIsNone': True, 'attrCachesPerInstance': True}
 
 FACT_WHAT = {
     'occCount': 'D09: _doc_to_object counts one occurrence per key, not per item: 3 items pass max_occurs=2 and 2 items '
@@ -1424,6 +1427,9 @@ FACT_WHAT = {
                       'the caller\'s set instead of a copy): an object referenced from two sibling members is written once '
                       'and dropped the second time, an array that holds an object twice is written as null '
                       '(witness: Seg(start=p, end=p, more=[q, r, q]) as a JSON result)',
+    'attrCachesPerInstance': 'the attribute caches of the protocols (get_cls_attrs, with the per-protocol attributes `pa=` merged in) are shared '
+                             'between protocol instances: after an instance of the protocol named in `pa` has used a type, every other protocol '
+                             'in the process validates it with that protocol\'s relaxed attributes (a mandatory member may be missing)',
     'valuesNullTestIsNone': 'the null branch of the `values` check of SimpleModel.validate_native tests falsiness instead of `is None`: a nillable '
                             'type accepts the falsy value of its kind (the empty string, 0, 0.0, False) although it is not in the enumeration',
     'noFreqKeepsValidation': 'for a class with validate_freq=False (novalidate_freq(), the self of @mrpc methods) soft validation is switched off '
@@ -1483,7 +1489,7 @@ FACT_WITNESS = {
 }
 # switches measured by a probe of their own (replayed by name)
 PROBE_FACTS = ('guardPathLocal', 'fileFormValidated', 'mpBoolPassThrough', 'tableUtf8Fault', 'bytesJoinBeforeEncode', 'retagSubclassChecked',
-               'notWrappedStrKeys', 'notWrappedBytesKeys', 'nonNumberForNumber', 'noFreqKeepsValidation', 'valuesNullTestIsNone')
+               'notWrappedStrKeys', 'notWrappedBytesKeys', 'nonNumberForNumber', 'noFreqKeepsValidation', 'valuesNullTestIsNone', 'attrCachesPerInstance')
 
 
 PARSE_WITNESSES = [('yaml', b'a: b: c'), ('yaml', b'\x00'), ('yaml', b'*alias'), ('yaml', b'!!python/object:os.system {}'),
@@ -1735,8 +1741,65 @@ def _probe_values_falsy():
     return bad
 
 
+BIG_FLOATS = [2.0, -3.0, 2.0 ** 53, -(2.0 ** 53), 2.0 ** 53 + 2, 1e16, -1e16, 2.0 ** 63, 1e22]
+
+
+def _probe_int_floats():
+    """integral floats, also at and beyond 2**53, for Integer / Integer64 / UnsignedInteger64 (argument and array item), soft and
+    no validation, json / yaml / msgpack: user code gets exactly the `int` (or a fault when the type's range excludes it)"""
+    bad = {}
+    B = Builder()
+    kinds = ['unbounded', 'i64', 'u64']
+    args = [['a_%s' % k, dict(INT_PLAIN, kind=k)] for k in kinds] + [['l_%s' % k, {'k': 'arr', 'member': 'm', 'elem': dict(INT_PLAIN, kind=k), 'occ': occ()}] for k in kinds]
+    impl = Impl(B, {'args': args, 'ret': INT_PLAIN})
+    for proto in ('json', 'yaml', 'msgpack'):
+        K = (lambda s_: s_.encode('utf8')) if proto == 'msgpack' else (lambda s_: s_)
+        for validator in (None, 'soft'):
+            cfg = dict(CFG_DEFAULT, proto=proto, validator=validator)
+            for k in kinds:
+                lo, hi = KIND_RANGE[k]
+                for x in BIG_FLOATS:
+                    inr = (lo is None or lo <= int(x)) and (hi is None or int(x) <= hi)
+                    for name, node, want in (('a_' + k, x, {'i': str(int(x))}), ('l_' + k, [x], {'l': [{'i': str(int(x))}]})):
+                        r = impl.run(cfg, dump(proto, {K('f'): {K(name): node}}))
+                        o = r['outcome']
+                        got = dict(o['ok']['o'][1]).get(name) if 'ok' in o else None
+                        ok = got == want if (inr or validator is None) else 'fault' in o
+                        if not ok:
+                            bad['%s %s %s <- %r' % (proto, validator, name, x)] = {kk: (vv if kk != 'ok' else got) for kk, vv in o.items()}
+    return bad
+
+
+def _probe_prot_attrs():
+    """f(s: Unicode(min_occurs=1, pa={<first protocol class>: {min_occurs: 0}})), soft validation, a request without `s`:
+    the protocol named in `pa` accepts it, every other protocol refuses it -- also after an instance of the named protocol
+    has served a request for the same type in this process (attribute caches are per protocol instance) -> what differs"""
+    bad = {}
+    for first, second in (('msgpack', 'json'), ('json', 'yaml'), ('yaml', 'msgpack'), ('json', 'msgpackrpc')):
+        verdicts = {}
+        for history in (False, True):
+            B = Builder()                   # fresh type objects: the caches are keyed by class
+            t = dict(STR_PLAIN, occ=occ(True, 1, 1), pa={first: {'min_occurs': 0}})
+            impl = Impl(B, {'args': [['s', t], ['x', INT_PLAIN]], 'ret': INT_PLAIN})
+
+            def ask(proto):
+                K = (lambda s_: s_.encode('utf8')) if proto.startswith('msgpack') else (lambda s_: s_)
+                doc = [0, 1, 'f', {K('x'): 1}] if proto == 'msgpackrpc' else {K('f'): {K('x'): 1}}
+                return next(iter(impl.run(dict(CFG_DEFAULT, proto=proto, validator='soft'), dump(proto, doc))['outcome']))
+            if history:
+                v = ask(first)
+                if v != 'ok':
+                    bad['%s named in pa: request without the member' % first] = v
+            verdicts[history] = ask(second)
+        if verdicts[False] != 'fault' or verdicts[True] != verdicts[False]:
+            bad['%s after %s' % (second, first)] = {'alone': verdicts[False], 'after the other instance served a request': verdicts[True]}
+    return bad
+
+
 def measure_facts():
     f, obs = {}, {}
+    o = _probe_prot_attrs()
+    f['attrCachesPerInstance'], obs['attrCachesPerInstance'] = o == {}, o
     o = _probe_values_falsy()
     f['valuesNullTestIsNone'], obs['valuesNullTestIsNone'] = o == {}, o
     o = _probe_nofreq()
@@ -1795,7 +1858,10 @@ def measure_facts():
         elif name == 'jsonNullDateOk':
             f[name] = 'ok' in o
         elif name == 'intFromFloat':
-            f[name] = o == {'ok': {'o': ['f', [['i', {'i': '2'}]]]}}
+            big = _probe_int_floats()
+            f[name] = o == {'ok': {'o': ['f', [['i', {'i': '2'}]]]}} and big == {}
+            if big:
+                obs[name] = {'2.0': o, 'integral floats up to and beyond 2**53': big}
     return f, obs
 
 
@@ -1804,7 +1870,7 @@ def facts_lean(f):
     lines = ['  occCount := .%s' % f['occCount']]
     for k in ['mpNameAnyKey', 'nullComplexIsNone', 'repeatedScalarFault', 'leafKindFault', 'boolCoerced', 'utf8Fault',
               'jsonNullDateOk', 'intFromFloat', 'nativeKindFault', 'binKindFault', 'rawBytesKindFault', 'nestedArrayOk', 'binTextValidated', 'parseErrorsFault', 'missingBodyFault', 'guardPathLocal', 'fileFormValidated',
-              'bytesJoinBeforeEncode', 'retagSubclassChecked', 'notWrappedStrKeys', 'notWrappedBytesKeys', 'noFreqKeepsValidation', 'valuesNullTestIsNone']:
+              'bytesJoinBeforeEncode', 'retagSubclassChecked', 'notWrappedStrKeys', 'notWrappedBytesKeys', 'noFreqKeepsValidation', 'valuesNullTestIsNone', 'attrCachesPerInstance']:
         lines.append('  %s := %s' % (k, b(f[k])))
     pl = lambda l: '[' + ', '.join('(%s, %s)' % (b(x), b(y)) for x, y in l) + ']'
     lines.append('  mpBytesTable := %s' % pl(f['mpBytesTable']))
@@ -1825,7 +1891,7 @@ SWITCH_PROPS = {
     'mpBoolPassThrough': {'C04', 'C05', 'C10'}, 'tableUtf8Fault': {'C04', 'C05', 'C10'},
     'bytesJoinBeforeEncode': {'C02'}, 'retagSubclassChecked': {'C04'},
     'notWrappedStrKeys': {'C02'}, 'notWrappedBytesKeys': {'C02'}, 'nonNumberForNumber': {'C04', 'C05'},
-    'noFreqKeepsValidation': {'C04', 'C05'}, 'valuesNullTestIsNone': {'C05'},
+    'noFreqKeepsValidation': {'C04', 'C05'}, 'valuesNullTestIsNone': {'C05'}, 'attrCachesPerInstance': {'C05'},
 }
 
 
@@ -1843,6 +1909,8 @@ def t1(ctx):
                        'tableUtf8Fault': 'f(d: Date) <- {b"f": {b"d": b"\\xff\\xfe"}}, validator=soft, raw=True, use_bin_type=False',
                        'bytesJoinBeforeEncode': CHUNK_WITNESS, 'retagSubclassChecked': RETAG_WITNESS_DOCS,
                        'notWrappedStrKeys': NW_WITNESS, 'notWrappedBytesKeys': NW_WITNESS,
+                       'attrCachesPerInstance': 'f(s: Unicode(min_occurs=1, pa={P1: {min_occurs: 0}}), x) <- a request without s: P2 alone / P2 after P1 '
+                                                'served one, (P1, P2) in (msgpack, json), (json, yaml), (yaml, msgpack), (json, msgpackrpc); soft',
                        'valuesNullTestIsNone': [[a[0][1], d] for a, d in VALUES_WITNESS],
                        'noFreqKeepsValidation': {'type': NF_ACCOUNT, 'refused': NF_WITNESS_FAULT, 'accepted': NF_WITNESS_OK},
                        'nonNumberForNumber': 'f(a: Double | Double(ge=..) | Decimal | Decimal(le=..), box: NumBox{the same}) <- every kind of number_foreign(proto), '
@@ -3366,7 +3434,7 @@ def replay(ctx, obj):
             o = {'guardPathLocal': _probe_alias, 'bytesJoinBeforeEncode': _probe_chunks, 'retagSubclassChecked': _probe_retag,
                  'notWrappedStrKeys': _probe_not_wrapped, 'notWrappedBytesKeys': _probe_not_wrapped,
                  'nonNumberForNumber': _probe_number_kinds, 'noFreqKeepsValidation': _probe_nofreq,
-                 'valuesNullTestIsNone': _probe_values_falsy}.get(obj['fact'], _probe_file)()
+                 'valuesNullTestIsNone': _probe_values_falsy, 'attrCachesPerInstance': _probe_prot_attrs}.get(obj['fact'], _probe_file)()
         print('witness :', json.dumps(obj.get('witness'))[:600])
         print('impl    :', o)
         print('expected:', obj.get('expected'))
@@ -3810,8 +3878,11 @@ def part_c04_leaves(ctx):
     B_leaf = Batch(ctx)
     nleak = 0
     cfgs = [c for c in ALL_CFGS + MP_EXTRA_CFGS if c['validator'] == 'soft' and c['cas'] == 'dict']
-    for kind in LEAF_KINDS:
+    variants = [(k, None) for k in LEAF_KINDS] + [('int', ik) for ik in ('unbounded', 'i64', 'u64', 'i32')]
+    for kind, ikind in variants:
         lt = gen_leaf(rng, kind, occ(), facets=False)
+        if ikind:
+            lt = dict(lt, kind=ikind, r={})          # directed: the integer kinds whose range reaches 2**53 (and one that does not)
         box = {'name': 'Box', 'ns': TNS, 'base': None, 'fields': [['v', lt]]}
         B = Builder()
         B.register([box])
@@ -3839,6 +3910,8 @@ def part_c04_leaves(ctx):
             places = [root + (K('a'),), root + (K('arr'), 0), root + (K('box'),) + (() if cfg['iw'] else (K('Box'),)) + (K('v'),)]
             pool = ['x', '', '1', 5, 0, 1, 2.5, 1.0, True, [1], [], {K('a'): 1}, {}, b'abc' if cfg['proto'] != 'json' else 'abc',
                     b'\xff\xfe' if cfg['proto'] != 'json' else '\ud7ff']
+            if ikind:
+                pool = BIG_FLOATS + [-(2.0 ** 63), 2.0 ** 64, 1e300, -0.0]      # integral floats at and beyond 2**53
             for w in pool:
                 place = rng.choice(places)
                 try:
@@ -3851,7 +3924,7 @@ def part_c04_leaves(ctx):
                 kindo = next(iter(r['outcome']))
                 fam = 'msgpack' if mp else cfg['proto']
                 ctx.case({'c04leaf': cfg_key(cfg), 'kind': kind, 'doc': doc_to_json(parsed)}, True)
-                ctx.hit('c04:leaf:%s:%s:%s' % (kind, type(w).__name__, kindo))
+                ctx.hit('c04:leaf:%s:%s:%s' % (kind + (':' + ikind if ikind else ''), type(w).__name__, kindo))
                 body, ok = request_body(cfg, parsed)
                 if ok and modelled_doc(body, in_ty) and spyne_parses(cfg, data):
                     B_leaf.add({'op': 'request', 'cfg': cfg, 'reg': [box], 'ty': in_ty, 'doc': doc_to_json(body)}, r['outcome'])
@@ -4290,6 +4363,15 @@ def part_c05(ctx):
     B_req.run('hier.request-c05')
     B_conf.run('hier.conforms')
     part_c05_ranges(ctx)
+    # ---- non-interference (T3): the verdict of a protocol does not depend on which other protocol instance used the type first
+    bad = _probe_prot_attrs()
+    ctx.case({'c05-prot-attrs': 'history'}, True)
+    ctx.hit('c05:prot-attrs:%s' % ('independent' if not bad else 'interference'))
+    for k, v in sorted(bad.items()):
+        ctx.finding('c05:prot-attrs-interference:%s' % k.replace(' ', '-'),
+                    'soft validation of a type with per-protocol attributes (pa=) gives another verdict after an instance of another protocol '
+                    'has used the type: %s' % (v,), {'op': 'probe', 'fact': 'attrCachesPerInstance', 'witness': k, 'observed': v,
+                                                     'expected': 'fault, with or without the other protocol instance'})
     ctx.cov['c05_hier_rule'] = ('conformant values and single-facet violations (range, length, pattern, enumeration, occurrence, '
                                 'nullability, lexical form) at every nesting position x json/yaml/msgpack/msgpack-rpc x wrapper modes, '
                                 'soft validation; oracle = python re-statement of `conforms`, diffed against the Lean definition')
